@@ -266,6 +266,7 @@ alac_reader_init (SF_PRIVATE *psf, const ALAC_DECODER_INFO * info)
 		} ;
 
 	/* Read in the ALAC cookie data and pass it to the init function. */
+	memset (&u, 0, sizeof (u)) ;
 	kuki_size = alac_kuki_read (psf, info->kuki_offset, u.kuki, sizeof (u.kuki)) ;
 
 	if ((error = alac_decoder_init (&plac->u.decoder, u.kuki, kuki_size)) != ALAC_noErr)
@@ -823,7 +824,7 @@ alac_pakt_read_decode (SF_PRIVATE * psf, uint32_t UNUSED (pakt_offset))
 	psf->get_chunk_size (psf, chunk_iterator, &chunk_info) ;
 
 	pakt_size = chunk_info.datalen ;
-	chunk_info.data = pakt_data = malloc (pakt_size + 5) ;
+	chunk_info.data = pakt_data = calloc (1, pakt_size + 5) ;
 	if (!chunk_info.data)
 		return NULL ;
 
@@ -947,8 +948,8 @@ alac_pakt_block_offset (const PAKT_INFO *info, uint32_t block)
 
 static uint32_t
 alac_kuki_read (SF_PRIVATE * psf, uint32_t kuki_offset, uint8_t * kuki, size_t kuki_maxlen)
-{	uint32_t marker ;
-	uint64_t kuki_size ;
+{	uint32_t marker = 0 ;
+	uint64_t kuki_size = 0 ;
 
 	if (psf_fseek (psf, kuki_offset, SEEK_SET) != kuki_offset)
 		return 0 ;
